@@ -294,6 +294,8 @@ def gen_hold(rng, chans, idxs, opts):
 def gen_tree(rng, chans, idxs, depth, opts, budget):
     """budget: [remaining number of unrolled steps] (mutable list of one int)"""
     r = rng.random()
+    if not idxs and depth >= 2 and rng.random() < 0.8:
+        r = rng.choice([0.4, 0.6, 0.9, 0.9, 0.9])      # outside any loop: mostly open an iteration
     if depth <= 0 or budget[0] <= 1 or r < 0.34:
         budget[0] -= 1
         return gen_hold(rng, chans, idxs, opts)
@@ -616,6 +618,8 @@ def to_coq(case, obs):
     chans = case['channels']
     src = g_src(case['tree'], chans)
     if case['kind'] == 'run':
+        if _has(case['tree'], lambda x: x['t'] == 'rep' and x['n'] >= 2):
+            _GUARD_TODO.setdefault(vlib.canonical_hash(case), src)
         return '(CRun %s %d%%positive %s %s %s %s %s)' % (
             vlib.gnat(len(chans)), fuel_of(case, obs), src, gbool(case.get('exact', True)), g_iobs(obs),
             g_steps(obs['dflt']), gQ(F(obs['dflt_total'])))
@@ -708,17 +712,26 @@ def _reachable_holds(t, live=True):
 
 
 _GUARD_CACHE = {}
+_GUARD_TODO = {}      # canonical hash -> Gallina source term, filled by to_coq (all `run` cases with a repetition >= 2)
 
 
 def _rep_unstable(case):
     """ghost flag of the model: some non-unrolled repetition (count >= 2) has a body whose translation depends on the
-    register state at its entry (evaluated by Coq on the model of the unchanged translator)."""
+    register state at its entry (evaluated by Coq on the model of the unchanged translator; one batch per run)."""
+    import re
     key = vlib.canonical_hash(case)
     if key not in _GUARD_CACHE:
-        term = '(rep_stable_src %s)' % g_src(case['tree'], case['channels'])
-        out = vlib.coq_eval(os.path.join(vlib.CASES, 'C17.guard.%d' % os.getpid()), ['QV.C17.Model'], term)
-        vlib.rmtree(os.path.join(vlib.CASES, 'C17.guard.%d' % os.getpid()))
-        _GUARD_CACHE[key] = 'false' in out
+        _GUARD_TODO.setdefault(key, g_src(case['tree'], case['channels']))
+        todo = [(k, t) for k, t in _GUARD_TODO.items() if k not in _GUARD_CACHE]
+        wd = os.path.join(vlib.CASES, 'C17.guard.%d' % os.getpid())
+        for start in range(0, len(todo), 200):
+            chunk = todo[start:start + 200]
+            out = vlib.coq_eval(wd, ['QV.C17.Model'], '[' + '; '.join('rep_stable_src %s' % t for _, t in chunk) + ']')
+            vals = re.findall(r'true|false', out)
+            assert len(vals) == len(chunk), out[:200]
+            for (k, _), v in zip(chunk, vals):
+                _GUARD_CACHE[k] = (v == 'false')
+        vlib.rmtree(wd)
     return _GUARD_CACHE[key]
 
 
